@@ -27,7 +27,10 @@ class Grammar:
                 if e.get("k") == "ident" and e["v"] in helpers and e["v"] not in stack:
                     return inline(copy.deepcopy(self.rules[e["v"]]["expr"]), stack | {e["v"]})
                 return {k_: (inline(v_, stack) if isinstance(v_, dict) else v_) for k_, v_ in e.items()}
-            self.rules = {n: (dict(r, expr=inline(r["expr"], frozenset())) if n not in helpers else r) for n, r in self.rules.items()}
+            # the helpers themselves are gone afterwards: left behind, an unreferenced rule would count as an entry point of its own
+            # (matched in a normal context) in the context analyses
+            self.rules = {n: dict(r, expr=inline(r["expr"], frozenset())) for n, r in self.rules.items() if n not in helpers}
+            self.order = [n for n in self.order if n not in helpers]
         self.inlined_helpers = sorted(helpers)
 
     def rule(self, name):
